@@ -1,6 +1,7 @@
 package main
 
 import (
+	"reflect"
 	"fmt"
 	"sync"
 	stdecdsa "crypto/ecdsa"
@@ -106,6 +107,20 @@ func signedOutcome(fn string, ser []byte, serOK bool, libVerifyOK bool, reader s
 	return r
 }
 
+// afterQueries: every read-only argument-free method of the structure and of the parts it was built from (validity queries
+// included) is called; then the structure has to verify and serialise exactly as before
+func afterQueries(res Res, parts []any, ser0 []byte, again func() ([]byte, bool, bool)) {
+	for _, p := range parts {
+		v := reflect.ValueOf(p)
+		if !v.IsValid() || (v.Kind() == reflect.Pointer && v.IsNil()) {
+			continue
+		}
+		callAllMethods(v)
+	}
+	ser1, serOK, verOK := again()
+	res["aq_done"], res["aq_verify"], res["aq_ser_same"] = true, verOK, serOK && string(ser1) == string(ser0)
+}
+
 func init() {
 	register("SignBuild", func(s *Session, a Args) Res {
 		rng := rand.New(rand.NewSource(s.Seed*104729 + int64(a.Int("stream"))))
@@ -140,6 +155,14 @@ func init() {
 				}
 				addrs = append(addrs, ra)
 			}
+			// addresses that only a parser produces (options in the wire order they arrived in)
+			for _, rawa := range m.List("rawaddrs") {
+				ra, _, rerr := router_address.ReadRouterAddress(toBytes(rawa))
+				if rerr != nil {
+					return Res{"setup": false, "err": "raw address: " + errStr(rerr)}
+				}
+				addrs = append(addrs, &ra)
+			}
 			info, err := router_info.NewRouterInfo(ri, unixTime(m, "pubsec", "pubneg", m.Int("pubns")), addrs, opts, depPrivateKey(id), st)
 			res["ok"], res["err"] = err == nil && info != nil, errStr(err)
 			if err == nil && info != nil {
@@ -153,6 +176,15 @@ func init() {
 				if p := info.Published(); p != nil {
 					res["published"] = ints(p[:])
 				}
+				parts := []any{info, ri}
+				for _, ra := range addrs {
+					parts = append(parts, ra, ra.TransportOptions)
+				}
+				afterQueries(res, parts, ser, func() ([]byte, bool, bool) {
+					b, e := info.Bytes()
+					g, ve := info.VerifySignature()
+					return b, e == nil, g && ve == nil
+				})
 			}
 		case "NewLeaseSet":
 			var d *destination.Destination
@@ -296,6 +328,14 @@ func init() {
 				if merr != nil {
 					return Res{"setup": false, "err": "options: " + errStr(merr)}
 				}
+				if m.Has("rawopts") {
+					// an options mapping that only a parser produces (pairs in the wire order they arrived in)
+					pm, _, perrs := data.ReadMapping(m.Bytes("rawopts"))
+					if len(perrs) > 0 {
+						return Res{"setup": false, "err": "raw options do not parse"}
+					}
+					mp = &pm
+				}
 				var keys []lease_set2.EncryptionKey
 				// encryption-key entries of the legacy 256-byte type whose bytes are an extreme number (the constructor only looks at the length)
 				switch m.Str("elgkeys") {
@@ -340,6 +380,10 @@ func init() {
 					for k, v := range signedOutcome("NewLeaseSet2", ser, serr == nil, ls.Verify() == nil, "ReadLeaseSet2", 0, final.st, final.pub, a.Int("siglen"), a.Bytes("prefix"), id.pub) {
 						res[k] = v
 					}
+					afterQueries(res, []any{ls, mp, d, off}, ser, func() ([]byte, bool, bool) {
+						b, e := ls.Bytes()
+						return b, e == nil, ls.Verify() == nil
+					})
 				}
 			}
 		default:
@@ -347,6 +391,9 @@ func init() {
 		}
 		if _, ok := res["ser"]; !ok {
 			res["ser"], res["serok"], res["verify_ok"], res["indep_ok"], res["rt_parse_ok"], res["rt_verify_ok"], res["rt_same"] = []int{}, false, false, false, false, false, false
+		}
+		if _, ok := res["aq_done"]; !ok {
+			res["aq_done"], res["aq_verify"], res["aq_ser_same"] = false, false, false
 		}
 		if _, ok := res["hasvalid"]; !ok {
 			res["hasvalid"], res["validok"] = false, false
